@@ -4,6 +4,7 @@
 From Coq Require Import ZArith List.
 From Verif Require Import Lib.Params Lib.Octets Spec.MiMC7Spec Model.Outcome Model.Utils Model.Mimc7
   Proofs.Mimc7Proofs.
+From Verif Require Gen.BigIntLoops Proofs.BigIntEqLoopsMimc7.
 Local Open Scope Z_scope.
 
 (* the regenerated literals are the circomlib ones: q, 91 rounds, 31-byte chunks, seed "mimc" *)
@@ -35,6 +36,25 @@ Proof. exact hash_generic_conforms. Qed.
 Theorem C08_hashbytes_conforms : forall b, Forall is_byte b -> HashBytes b = Ok (spec_hashbytes b).
 Proof. exact hashbytes_conforms. Qed.
 
+(* ---- the LOOPS of the Go source: tools/bigintgen re-translates the whole functions, loops
+   included, at every run (Gen/BigIntLoops.v: a Go `for` becomes a fold over its index range
+   with the loop-carried variables as accumulator); the translated function equals the model
+   the theorems above are about ---- *)
+Theorem C08_loops_are_the_source :
+  (forall n, 1 <= n -> BigIntLoops.mimc7_getConstants Mimc7.SEED n = Mimc7.getConstants (Z.to_nat n)) /\
+  snd BigIntLoops.mimc7_generateConstantsData = Mimc7.constants_cts /\
+  (forall x k n, 1 <= n -> Ok (BigIntLoops.mimc7_MIMC7HashGeneric x k n) = Mimc7.MIMC7HashGeneric x k n) /\
+  (forall x k, BigIntLoops.mimc7_MIMC7Hash x k = Mimc7.MIMC7Hash x k) /\
+  (forall iv arr n, 1 <= n -> BigIntLoops.mimc7_HashGeneric iv arr n = Mimc7.HashGeneric iv arr n) /\
+  (forall arr key, BigIntLoops.mimc7_Hash arr key = Mimc7.Hash arr key) /\
+  (forall b, BigIntLoops.mimc7_HashBytes b = Mimc7.HashBytes b).
+Proof.
+  exact (conj BigIntEqLoopsMimc7.gen_mimc7_getConstants_eq (conj BigIntEqLoopsMimc7.gen_mimc7_constants_cts_eq
+        (conj BigIntEqLoopsMimc7.gen_mimc7_MIMC7HashGeneric_eq (conj BigIntEqLoopsMimc7.gen_mimc7_MIMC7Hash_eq
+        (conj BigIntEqLoopsMimc7.gen_mimc7_HashGeneric_eq (conj BigIntEqLoopsMimc7.gen_mimc7_Hash_eq
+        BigIntEqLoopsMimc7.gen_mimc7_HashBytes_eq)))))).
+Qed.
+
 Print Assumptions C08_constants.
 Print Assumptions C08_round_constants.
 Print Assumptions C08_generic_conforms.
@@ -42,3 +62,4 @@ Print Assumptions C08_fixed_conforms.
 Print Assumptions C08_hash_conforms.
 Print Assumptions C08_hash_generic_conforms.
 Print Assumptions C08_hashbytes_conforms.
+Print Assumptions C08_loops_are_the_source.
